@@ -68,7 +68,9 @@ def handle (j : Json) : R Json := do
     let tbl ← getObj j "parse"
     let parse := parseOf tbl
     let identJ ← getObj j "ident"
-    let mut s := PState.empty
+    let mut s ← match j.getObjVal? "init" with
+      | .ok i => pstateOf i
+      | .error _ => pure PState.empty
     let mut ss : Sessions := Sessions.fresh
     let mut outs : Array Json := #[]
     for oj in (← getArr j "ops") do
@@ -96,7 +98,11 @@ def handle (j : Json) : R Json := do
       let sess := Json.mkObj [("enc", Json.bool (ss' c).enc), ("cu", jopt juuid (ss' c).cu)]
       let out ← match sop, ans with
         | .verify _ v, _ =>
-          pure (Json.mkObj [("verified", Json.bool (verifies parse s v).isSome), ("sess", sess), ("state", jpstate s')])
+          let filled := match verifiesAs parse s v with
+            | some (u, idb) => (backfill s u idb).2
+            | none => false
+          pure (Json.mkObj [("verified", Json.bool (verifies parse s v).isSome), ("sess", sess), ("state", jpstate s'),
+            ("wrote", Json.bool filled)])
         | .setup _ _, some (r, wrote) =>
           pure (Json.mkObj [("resp", jresp r), ("state", jpstate s'), ("wrote", Json.bool wrote)])
         | _, some (r, wrote) =>
